@@ -20,6 +20,8 @@ pub mod prop_c11;
 pub mod prop_c12;
 pub mod prop_c14;
 pub mod prop_c15;
+pub mod prop_c20;
+pub mod prop_merge;
 
 use framework::PropertyDef;
 
@@ -37,6 +39,7 @@ pub fn registry() -> Vec<PropertyDef> {
         prop_c12::def(),
         prop_c14::def(),
         prop_c15::def(),
+        prop_c20::def(),
     ]
 }
 
